@@ -20,6 +20,9 @@ const (
 	SProbe      Step = "probe"  // sample IsAborted()
 	SReturn     Step = "return" // return early
 	SStatus     Step = "status" // c.SetStatus(201): selects a status without committing it
+	// SRedispAbort: the handler re-dispatches the request (HandleContext) to a route whose only middleware (id 100)
+	// probes, aborts, probes; its main handler (id 101) must therefore never start, nor any later handler out here
+	SRedispAbort Step = "redispatch-to-aborting-route"
 )
 
 // Behaviour is the body of one handler: a sequence of steps.
@@ -88,6 +91,10 @@ func RunChain(bs []Behaviour, abortCode int) ChainResult {
 				if !res.Committed {
 					pendingStatus = 201
 				}
+			case SRedispAbort:
+				res.Events = append(res.Events, Event{Kind: "enter", H: 100}, Event{Kind: "probe", H: 100, Aborted: false},
+					Event{Kind: "probe", H: 100, Aborted: false}, Event{Kind: "probe", H: 100, Aborted: true}, Event{Kind: "leave", H: 100})
+				aborted = true
 			case SProbe:
 				res.Events = append(res.Events, Event{Kind: "probe", H: k, Aborted: aborted})
 			case SReturn:
